@@ -1,6 +1,7 @@
 import DracoProofs.Octahedron
 import DracoProofs.OctaAngle
 import DracoProofs.OctaFloatAngle
+import DracoProofs.GeneratedFuncs
 /-
   C07 (integer half) — octahedral coordinates produced by the encoder lie inside the q-bit
   square `[0, max_value_]² = [0, 2^q − 2]²` and are canonical (the unique representative of the
@@ -541,5 +542,43 @@ example := float_zero_input Octa.exactDoubleOps 0 (Octa.exactDoubleOps_model 0 (
   (Octa.biasedNormOps (1/2^24)) (1/2^24)
   (Octa.biasedNormOps_model _ _ (by rw [abs_of_pos] <;> norm_num)) (le_refl _) (by norm_num)
   (by norm_num) (by norm_num) 10 ⟨10, 1023, 1022, 511⟩ (by decide) (by norm_num)
+
+/-! ## the source functions *are* the model functions
+
+  `Generated.*` (lean/Generated/Funcs.lean) is translated mechanically from clang's typed AST of /repo's
+  working tree on every run (tools/vlib/xlate.py).  Each theorem states that the translated
+  `OctahedronToolBox` function equals the model function the theorems above are about. -/
+open Generated in
+/-- `OctahedronToolBox::CanonicalizeOctahedralCoords` is `Octa.canonicalize` on the grid `[0, max_value_]²` -/
+theorem source_canonicalize_is_model (t : OctaT) (s tt : Int) (hwf : t.WF) (hg : Octa.inGrid t (s, tt)) :
+    OctahedronToolBox.CanonicalizeOctahedralCoords (ofOctaT t) s tt = Octa.canonicalize t (s, tt) :=
+  CanonicalizeOctahedralCoords_eq_model t s tt hwf hg
+example : Generated.OctahedronToolBox.CanonicalizeOctahedralCoords (Generated.ofOctaT (Octa.ofCenter 127)) 0 200 = (0, 54) := by
+  rw [source_canonicalize_is_model _ _ _ (by unfold OctaT.WF Octa.ofCenter; decide) (by unfold Octa.inGrid Octa.ofCenter; decide)]; decide
+
+open Generated in
+/-- `OctahedronToolBox::IsInDiamond` is `Octa.isInDiamond` -/
+theorem source_isInDiamond_is_model' (t : OctaT) (s tt : Int) (hwf : t.WF) :
+    OctahedronToolBox.IsInDiamond (ofOctaT t) s tt = Octa.isInDiamond t s tt := IsInDiamond_eq_model t s tt hwf
+example : Generated.OctahedronToolBox.IsInDiamond (Generated.ofOctaT (Octa.ofCenter 127)) 100 (-27) = true := by
+  rw [source_isInDiamond_is_model' _ _ _ (by unfold OctaT.WF Octa.ofCenter; decide)]; decide
+
+open Generated in
+/-- `OctahedronToolBox::InvertDiamond` is `Octa.invertDiamond` (every pair of `int32_t`) -/
+theorem source_invertDiamond_is_model' (t : OctaT) (s tt : Int) (hwf : t.WF) (hs : I32 s) (ht : I32 tt) :
+    OctahedronToolBox.InvertDiamond (ofOctaT t) s tt = Octa.invertDiamond t (s, tt) :=
+  InvertDiamond_eq_model t s tt hwf hs ht
+example : Generated.OctahedronToolBox.InvertDiamond (Generated.ofOctaT (Octa.ofCenter 127)) 100 (-90) = (37, -27) := by
+  rw [source_invertDiamond_is_model' _ _ _ (by unfold OctaT.WF Octa.ofCenter; decide) (by decide) (by decide)]; decide
+
+open Generated in
+/-- `…CanonicalizedDecodingTransform::ComputeOriginalValue(Point2, Point2)` (the normal decoder's transform) is
+    `Octa.decOrig`, for every prediction on the grid and every correction -/
+theorem source_octaDecode_is_model' (t : OctaT) (pred corr : Int × Int) (hwf : t.WF) (hg : Octa.inGrid t pred) :
+    PredictionSchemeNormalOctahedronCanonicalizedDecodingTransform.ComputeOriginalValue (ofOctaT t) pred corr =
+      Octa.decOrig t pred corr := octaDecode_eq_model t pred corr hwf hg
+example : Generated.PredictionSchemeNormalOctahedronCanonicalizedDecodingTransform.ComputeOriginalValue
+    (Generated.ofOctaT (Octa.ofCenter 127)) (200, 13) (7, 250) = Octa.decOrig (Octa.ofCenter 127) (200, 13) (7, 250) :=
+  source_octaDecode_is_model' _ _ _ (by unfold OctaT.WF Octa.ofCenter; decide) (by unfold Octa.inGrid Octa.ofCenter; decide)
 
 end Draco
